@@ -45,6 +45,7 @@ func (m heapManager) run() {
 	var sync bool
 
 	for req := range m {
+		vhook("hm.req", nil, int(req.cmd), bHeap.Len())
 		switch req.cmd {
 		case h_push:
 			data := req.data.(pushData)
@@ -126,10 +127,12 @@ func (m heapManager) sync(drop <-chan struct{}) {
 func (m heapManager) push(b *Bar, sync bool) {
 	data := pushData{b, sync}
 	req := heapRequest{cmd: h_push, data: data}
+	vhook("hm.push", b, len(m), cap(m))
 	select {
 	case m <- req:
 	default:
 		go func() {
+			vhook("hm.push.detached", b, 0, 0)
 			m <- req
 		}()
 	}
@@ -171,6 +174,7 @@ func maxWidthDistributor(column []chan int, drop <-chan struct{}) {
 			return
 		}
 	}
+	vhook("dist.collected", nil, len(column), maxWidth)
 	for _, ch := range column {
 		ch <- maxWidth
 	}
